@@ -327,7 +327,8 @@ def i_xnor(ins, fmap):
 @__pcnpc
 def i_sll(ins, fmap):
     src1, src2, dst = ins.operands
-    src1.sf = src2.sf = False
+    src1 = src1.unsigned()
+    src2 = src2.unsigned()
     if dst is not g0:
         fmap[dst] = fmap(src1 << src2)
 
@@ -335,7 +336,8 @@ def i_sll(ins, fmap):
 @__pcnpc
 def i_srl(ins, fmap):
     src1, src2, dst = ins.operands
-    src1.sf = src2.sf = False
+    src1 = src1.unsigned()
+    src2 = src2.unsigned()
     if dst is not g0:
         fmap[dst] = fmap(src1 >> src2)
 
@@ -343,7 +345,8 @@ def i_srl(ins, fmap):
 @__pcnpc
 def i_sra(ins, fmap):
     src1, src2, dst = ins.operands
-    src1.sf = True
+    # src1 is a register shared by the whole module: flag a copy of it
+    src1 = src1.signed()
     if dst is not g0:
         fmap[dst] = fmap(src1 >> src2)
 
@@ -472,7 +475,8 @@ def i_mulscc(ins, fmap):
 @__pcnpc
 def i_umul(ins, fmap):
     src1, src2, dst = ins.operands
-    src1.sf = src2.sf = False
+    src1 = src1.unsigned()
+    src2 = src2.unsigned()
     _r = fmap(src1 ** src2)  # pow is used for long mul (_r is 64 bits here)
     fmap[y] = _r[32:64]
     if dst is not g0:
@@ -489,7 +493,9 @@ def i_umul(ins, fmap):
 @__pcnpc
 def i_smul(ins, fmap):
     src1, src2, dst = ins.operands
-    src1.sf = src2.sf = True
+    # the operands are registers shared by the whole module: flag copies
+    src1 = src1.signed()
+    src2 = src2.signed()
     _r = fmap(src1 ** src2)  # pow is used for long mul (_r is 64 bits here)
     fmap[y] = _r[32:64]
     if dst is not g0:
